@@ -470,8 +470,7 @@ func (u *Unit) syncCall(st *State, fr *Frame, site ssa.Instruction, name string,
 	case "(*sync.Mutex).Lock", "(*sync.RWMutex).Lock", "(*sync.RWMutex).RLock":
 		mu := args[0]
 		held := u.ghostGet(st, "held", SInt, mu)
-		ord := u.siteOrdinal(site, "lock-reentry")
-		u.Prove(st, u.obligName("lock-reentry", fmt.Sprintf("#%d", ord)), "lock", u.tagsOr(nil), posOf(site), "mutex is not already held by this goroutine (self-deadlock)", Eq(held, IntLit(0)), nil)
+		st.Assume(Ge(held, IntLit(0)))
 		u.ghostSet(st, "held", SInt, mu, Add(held, IntLit(1)))
 		st.LocksTouched = append(st.LocksTouched, mu)
 		u.onLock(st, fr, mu)
